@@ -67,7 +67,7 @@ Proof. unfold codec_body. wfa. Qed.
 Lemma wf_apply_body e sp argv : wfree (apply_body e sp argv).
 Proof.
   destruct e as [n|b|d|sq|f]; cbn [apply_body]; try solve [wfa].
-  destruct f as [g|name|i sc w b|i es|i e1|i e1]; try solve [wfa].
+  destruct f as [g|name|i sc w b|i es|i e1|i e1|hd]; try solve [wfa].
   (* pipe *)
   revert argv. induction es as [|e1 es IH]; intros argv; wfa.
 Qed.
